@@ -175,6 +175,28 @@ class Context:
         return val[0], flg[0]
 
     def _role_time_converter(self):
+        """the function reachable from prayer_times_dt that takes (&Params, Prayer, f64), returns NaiveTime and (transitively)
+        builds it with NaiveTime::from_hms_opt"""
+        out = []
+        params, prayer = self.adt('Params'), self.adt('Prayer')
+        for p in self.reach(self.role('dt')):
+            b = self.lib.bodies[p]
+            if b.kind not in ('Fn', 'AssocFn') or b.locals[0]['s'] != 'chrono::NaiveTime':
+                continue
+            tys = [b.locals[i] for i in range(1, b.arg_count + 1)]
+            if not (any((t.get('ref') or {}).get('adt') == params for t in tys) and any(t.get('adt') == prayer for t in tys)
+                    and any(t['s'] == 'f64' for t in tys)):
+                continue
+            builds = False
+            for q in self.reach(p):
+                if q in self.lib.bodies and any((callee_name(t) or '').endswith('NaiveTime::from_hms_opt')
+                                                for _, t in self.lib.bodies[q].calls()):
+                    builds = True
+                    break
+            if builds:
+                out.append(p)
+        if len(out) == 1:
+            return out[0]
         out = []
         for p in self.reach(self.role('dt')):
             b = self.lib.bodies[p]
